@@ -87,11 +87,12 @@ Definition exec_cmd (cf : sconf) (idx : N) (line : bytes) : bytes + bytes :=
       then inr (ack_line (match sc_rp_err cf with Some c => c | None => 0 end) idx name (b "err"))
       else
         match args with
-        | [_; off] =>
+        | [uri; off] =>
           if negb (all_digits off) then inr (ack_line 2 idx name (b "Integer expected")) else
           let o := dec_value off in
           if beq name (b "readpicture") then
-            match sc_pic_emb cf with
+            (* songs whose URI starts with "noemb" carry no embedded picture *)
+            match (if is_prefix (b "noemb") uri then None else sc_pic_emb cf) with
             | None => inl []
             | Some (pic, mime) =>
               if N.of_nat (length pic) <? o then inr (ack_line 2 idx name (b "Bad file offset"))
